@@ -42,6 +42,12 @@ PROPS = {
                  "ContextAware.Subscribe/AcceptsMessage are exercised through the real embedded type"],
         assumptions=["error handlers are not part of the processing tree for message routing (the walk does not visit them); disabled nodes are not in the tree"],
     ),
+    "C15": dict(
+        components=[("producer", 2000, 50000)],
+        trusted=["encoding/json: the harness parses every produced value with encoding/json and compares the tree shape; whether a payload is serialisable is an "
+                 "input of the model", "scripted MessageProducer standing in for librdkafka's produce channel"],
+        assumptions=["error reports carry a non-nil error (the framework never builds one without); unserialisable ErrorInfo is outside the statement"],
+    ),
     "C13": dict(
         components=[("config", 2000, 60000)],
         shrink=False,
